@@ -97,8 +97,10 @@ def cases(tier, seed):
         return ["sum-product", "complex-lse-sum"] if "poly" in str(c) else ["sum-product", "lse-sum", "complex-lse-sum"]
 
     if tier == "quick":
-        rnd.shuffle(allc)
-        for i, c in enumerate(allc[:36]):
+        cc_ = [c for c in allc if "concat" in str(c["circuit"]["ops"])]
+        rest = [c for c in allc if "concat" not in str(c["circuit"]["ops"])]
+        rnd.shuffle(rest)
+        for i, c in enumerate(cc_ + rest[:30]):
             ss = sems_for(c)
             d = dict(c)
             d["semiring"] = ss[(i + seed) % len(ss)]
